@@ -25,6 +25,7 @@ def one(d):
         ctx = Ctx(prog)
         for name in catalog.RULE_MODULES:
             importlib.import_module('rules.' + name).run(ctx)
+        import stages as _st; _st.mark_known(ctx)
         v = [i for i in ctx.instances if i.verdict == 'violation']
         hit = [i for i in v if set(props) & i.props]
         return sid, props, 'detected' if hit else 'MISSED', sorted({i.rule for i in hit}), sorted({i.rule for i in v})
